@@ -105,6 +105,17 @@ def free_energy_record(rng, b):
     data_in = counts if form == 0 else counts.astype(float) * scale
     vol = Volume(data=data_in, lattice=Lattice.cubic(6.0))
     F = vol.get_free_energy(temperature=temp)
+    mutated = False
+    if rng.random() < 0.4:
+        # the volume keeps accumulating samples (its data array is changed in place); the next answer must reflect the new data
+        vol.probability()
+        extra = np.zeros(counts.size, dtype=np.int64)
+        extra[rng.choice(counts.size, size=int(rng.integers(1, counts.size + 1)), replace=False)] = rng.integers(1, 40, size=1)
+        extra = extra.reshape(counts.shape)
+        counts = counts + extra
+        vol.data += extra if form == 0 else extra.astype(float) * scale
+        F = vol.get_free_energy(temperature=temp)
+        mutated = True
     data = np.asarray(F.data, dtype=float)
     kB = physical_constants['Boltzmann constant in eV/K'][0]
     total = int(counts.sum())
@@ -120,7 +131,7 @@ def free_energy_record(rng, b):
     g_1e7 = F.free_energy_graph(max_energy_threshold=1e7)
     return {'b': b, 'act': 'FreeEnergy', 'counts': counts.tolist(), 'finite': bool(np.all(np.isfinite(data))),
             'recovered': rec_list, 'rank': rank.tolist(), 'nodesDefault': [list(map(int, n)) for n in g_def.nodes],
-            'nodes1e7': [list(map(int, n)) for n in g_1e7.nodes], 'meta': {'T': temp, 'dims': dims, 'kind': kind, 'density_scale': scale, 'integer_input': form == 0}}
+            'nodes1e7': [list(map(int, n)) for n in g_1e7.nodes], 'meta': {'T': temp, 'dims': dims, 'kind': kind, 'density_scale': scale, 'integer_input': form == 0, 'data_changed_between_calls': mutated}}
 
 
 METHODS = [('dijkstra', 'sum'), ('bellman-ford', 'sum'), ('simple', 'simple'), ('dijkstra-exp', 'exp'), ('minmax-energy', 'peak')]
@@ -171,6 +182,19 @@ def path_record(rng, b, E, method, kind, diagonal, use_default_graph):
     except (nx.NetworkXNoPath, nx.NodeNotFound):
         rec['raised'] = True
         return rec
+    if use_default_graph and diagonal and len(p.sites) >= 3 and rng.random() < 0.5:
+        # the free-energy volume is edited in place (an interior voxel of the first path is blocked) and asked again
+        mid = tuple(int(x) for x in p.sites[len(p.sites) // 2])
+        F.data[mid] = BLOCK_ENERGY
+        E = E.copy()
+        E[mid] = BLOCKED
+        rec['E'] = E.tolist()
+        rec['meta']['blocked_after_first_query'] = list(mid)
+        try:
+            p = F.optimal_path(start=tuple(int(x) for x in start), stop=tuple(int(x) for x in stop), method=method)
+        except (nx.NetworkXNoPath, nx.NodeNotFound):
+            rec['raised'] = True
+            return rec
     rec['sites'] = [[int(x) for x in s] for s in p.sites]
     en = []
     for val in p.energy:
